@@ -81,7 +81,7 @@ def main():
     meta = json.load(open(os.path.join(mdir, "meta.json")))
     props = [p for p in a.props.split(",") if p] or [meta["property"]]
     name = os.path.basename(os.path.dirname(mdir)) + "-" + os.path.basename(mdir)
-    wt = "/tmp/eval/" + name
+    wt = "/tmp/eval/%s-%s-%d" % (name, "+".join(props), os.getpid())   # unique per evaluation: concurrent runs never share a tree
     res = {"mutation": mdir, "property": meta["property"], "checks": {}}
     sh("git -C /repo worktree remove --force %s" % wt)
     shutil.rmtree(wt, ignore_errors=True)
